@@ -63,7 +63,11 @@ def jx(n):
     if t is nodes.Getitem:
         return ("item", jx(n.node), jx(n.arg))
     if t is nodes.Filter:
-        return ("filter", n.name, jx(n.node), tuple(jx(a) for a in n.args),
+        inner = jx(n.node)
+        # iterating a dict iterates its keys: `x.element_count | first` is `x.element_count.keys() | first` (canonical form)
+        if n.name in ("first", "last", "list", "length", "join", "sort") and inner[0] == "attr" and inner[2] == "element_count":
+            inner = ("call", ("attr", inner, "keys"), (), ())
+        return ("filter", n.name, inner, tuple(jx(a) for a in n.args),
                 tuple((k.key, jx(k.value)) for k in n.kwargs))
     if t is nodes.Test:
         return ("test", n.name, jx(n.node), tuple(jx(a) for a in n.args))
@@ -248,14 +252,35 @@ def flatten(tree: SourceTree, rel: str, config: dict | None = None, _depth=0) ->
     return _items(tree, tmpl.body, rel, config or {}, _depth)
 
 
+def _macros_of(tree, rel):
+    """{name: Macro node} defined at the top level of a template"""
+    cache = tree.__dict__.setdefault("_jmacros", {})
+    if rel not in cache:
+        cache[rel] = {m.name: m for m in load(tree, rel).find_all(nodes.Macro)}
+    return cache[rel]
+
+
 def _items(tree, body, rel, config, depth) -> list:
     out = []
+    macros = _macros_of(tree, rel)
     for n in body:
         t = type(n)
         if t is nodes.Output:
             for c in n.nodes:
                 if isinstance(c, nodes.TemplateData):
                     out.append(("text", c.data, c.lineno, rel))
+                elif isinstance(c, nodes.Call) and isinstance(c.node, nodes.Name) and c.node.name in macros and depth < 8 and not c.dyn_args and not c.dyn_kwargs:
+                    # `{{ helper(args) }}`: the macro's body with its parameters bound -- extracted template code is still this code
+                    m = macros[c.node.name]
+                    params = [a.name for a in m.args]
+                    given = dict(zip(params, c.args))
+                    given.update({k.key: k.value for k in c.kwargs})
+                    defaults = dict(zip(params[len(params) - len(m.defaults):], m.defaults))
+                    for p_ in params:
+                        v_ = given.get(p_, defaults.get(p_))
+                        if v_ is not None:
+                            out.append(("set", ("name", p_), jx(v_), c.lineno, rel))
+                    out.extend(_items(tree, m.body, rel, config, depth + 1))
                 else:
                     out.append(("out", jx(c), c.lineno, rel))
         elif t is nodes.If:
@@ -281,7 +306,9 @@ def _items(tree, body, rel, config, depth) -> list:
             out.append(("other", "extends", n.lineno, rel))
         elif t is nodes.Block:
             out.extend(_items(tree, n.body, rel, config, depth))
-        elif t in (nodes.Macro, nodes.CallBlock, nodes.FilterBlock, nodes.With, nodes.Scope):
+        elif t is nodes.Macro:
+            continue        # expanded at its call sites
+        elif t in (nodes.CallBlock, nodes.FilterBlock, nodes.With, nodes.Scope):
             out.append(("other", t.__name__, n.lineno, rel))
             body2 = getattr(n, "body", None)
             if body2:
